@@ -62,6 +62,10 @@ F('Dyn_insert', HPP, 'insert', 'void Dyn_insert(Dyn *self, const Item *new_item)
 F('Dyn_pairwise_merge', HPP, 'pairwise_merge', 'void Dyn_pairwise_merge(Dyn *self, const Item *new_item, uint8_t target, size_t size_hint, size_t insertion_point)',
   ret='void', params={'new_item': 'Ref<Item>', 'target': 'uint8_t', 'size_hint': 'size_t', 'insertion_point': 'It<Item>'}, params_complete=True,
   bases={'insertion_point': '(*Dyn_level(self, self->min_level)).data'})
+F('Item_ctor', HPP, 'ItemA', 'void Item_ctor(Item *self, K key, V value)', cls='ItemA', self_cls='Item', ordinal=2, ret='void', params={'key': 'K', 'value': 'V'},
+  must_fire=('throw', 'ctor_init_list'))
+F('Dyn_ctor', HPP, 'DynamicPGMIndex', 'void Dyn_ctor(Dyn *self, uint8_t base, uint8_t buffer_level, uint8_t index_level)', ordinal=0, ret='void',
+  params={'base': 'uint8_t', 'buffer_level': 'uint8_t', 'index_level': 'uint8_t'}, must_fire=('throw', 'ctor_init_list'))
 FUNCS['PGMType_search'] = FuncDesc('PGMType_search', HPP, 'search', 'ApproxPos PGMType_search(const PGMType *self, K key)', ret='ApproxPos')
 FUNCS['PGMType_build'] = FuncDesc('PGMType_build', HPP, 'PGMIndex', 'PGMType PGMType_build(const Item *A, size_t first, size_t last)', ret='PGMType')
 FUNCS['pgmv_copy_Item'] = FuncDesc('pgmv_copy_Item', HPP, 'move', 'size_t pgmv_copy_Item(const Item *src, size_t first, size_t last, Item *dst, size_t d)', ret='size_t')
